@@ -266,15 +266,22 @@ def check_history(mon, layers, call, shape, rec, label):
     combos = list(itertools.product(*orders))
     if len(combos) > 12:
         combos = rng.sample(combos, 12)
-    for combo in combos:
+    for ci, combo in enumerate(combos):
         parent = mon['root']
+        shared_parent = ci % 2 == 1       # members that all hang under the same parent: the ancestors are reached through
+        #                                   every member, each of their overloads is still one overload
         for layer, sp, order in zip(reversed(layers), reversed(splits), reversed(combo)):
             k = sp[-1]
-            members = [yctx.Context(parent if m == 0 else None) for m in range(k)]
+            members = [yctx.Context(parent if (m == 0 or shared_parent) else None) for m in range(k)]
             for o, m in zip(layer, sp):
-                members[m].register_function(o.build(), exclusive=excl[id(o)])
+                fn = o.build()
+                members[m].register_function(fn, exclusive=excl[id(o)])
+                if shared_parent and k > 1 and rng.random() < 0.3:
+                    # one definition registered in two members is one overload of the layer
+                    fd = next(f for f in members[m]._functions[o.name] if f.payload is fn)
+                    members[(m + 1) % k].register_function(fd, exclusive=excl[id(o)])
             parent = yctx.MultiContext([members[m] for m in order])
-        variants['multi-context:member-order=%r' % (combo,)] = outcome(st, parent, vars_)
+        variants['multi-context:%smember-order=%r' % ('shared-parent:' if shared_parent else '', combo)] = outcome(st, parent, vars_)
         rec.count('history.multi_context_orders')
     rec.count('families')
     rec.count('history.families')
